@@ -198,6 +198,7 @@ def run(c):
                   "DuckDB 1.3.2 evaluates expressions and aggregates (median / stddev are applied by DuckDB itself to the bag the model says the aggregate receives)",
                   "harness/semgen.py renders one expression AST to SQL text and to Gallina"]
     c.assumptions += ["measure values are BIGINT / VARCHAR (exact arithmetic); avg compared numerically with DuckDB's double"]
+    lib.regen_small(c, "_build_measure_aggregation_sql")
     c.build_props()
     n = 400 if c.tier == "quick" else 6000
     cases = [gen_case(c.rng) for _ in range(n)]
